@@ -13,16 +13,16 @@ package ipk
 //@ func (d *IPK) Package(info *nfpm.Info, ipk io.Writer) (err error)
 //@   requires info != nil
 //@   requires files.SpecContentsNonNil(info.Contents)
-//@   requires !flag("failed") && !flag("clockRead") && !flag("envRead")
-//@   ensures [C06] loud: implies(err == nil, !flag("failed"))
-//@   ensures [C07] no-clock: implies(!old(info.MTime.IsZero()), !flag("clockRead"))
-//@   ensures [C07] no-env: !flag("envRead")
+//@   requires !ghostFlag("failed") && !ghostFlag("clockRead") && !ghostFlag("envRead")
+//@   ensures [C06] loud: implies(err == nil, !ghostFlag("failed"))
+//@   ensures [C07] no-clock: implies(!old(info.MTime.IsZero()), !ghostFlag("clockRead"))
+//@   ensures [C07] no-env: !ghostFlag("envRead")
 //@   modifies [C11 C12] &info.Arch, &info.Contents, &info.Priority, &info.Maintainer, mapof(info.IPK.Fields)
 //
 //@ inline func populateDataTar(info *nfpm.Info, tw *tar.Writer) (instSize int64, err error)
 //@   loop 0
-//@     invariant [C06] no-failure-so-far: !flag("failed")
-//@     invariant [C07] no-clock-so-far: implies(!old(info.MTime.IsZero()), !flag("clockRead"))
+//@     invariant [C06] no-failure-so-far: !ghostFlag("failed")
+//@     invariant [C07] no-clock-so-far: implies(!old(info.MTime.IsZero()), !ghostFlag("clockRead"))
 //@     invariant [C07 C11 C12] plan-still-fresh: nfpm.SpecPlanOK(info.Contents, !old(info.MTime.IsZero()))
 //
 //@ inline func conffiles(info *nfpm.Info) (result []byte)
@@ -31,7 +31,7 @@ package ipk
 //
 //@ inline func stripDisallowedFields(info *nfpm.Info)
 //@   loop 0
-//@     invariant [C06] no-failure-so-far: !flag("failed")
+//@     invariant [C06] no-failure-so-far: !ghostFlag("failed")
 //
 //@ import "strings"
 //
